@@ -443,6 +443,84 @@ def isDisjoint (a b : Table K Unit) : Res Bool :=
   let ord := orderByCard a b
   allRes (fun x => match sContains hash eq ord.2 x with | .error e => .error e | .ok c => .ok (!c)) (sToList ord.1)
 
+/-! ### the reference returned by `try_put_located` and its reader `with_count` (generators.rs `WithCount`) -/
+
+/-- `try_put_located` (mapping.rs:152-181) together with the `&V` it returns: the value just written —
+`&spot.1` of the slot found, or the last entry of the bucket for a new key.  (`tryPutLocated` above is the
+table part alone; `tryPutLocatedRet_fst` in the proofs shows they agree.) -/
+def tryPutLocatedRet (t : Table K V) (k : K) (loc : Loc) (onEmpty : Unit → Res V) (onFound : V → Res V) :
+    Res (Table K V × V) :=
+  match loc with
+  | .found h idx =>
+    match bget t.buckets h with
+    | none => .error (.panic "unwrap on None")
+    | some b =>
+      match b[idx]? with
+      | none => .error (.panic "index out of bounds")
+      | some (k0, prev) =>
+        match onFound prev with
+        | .error e => .error e
+        | .ok v =>
+          let b' := b.set idx (k0, v)
+          -- `&spot.1` where `spot = &mut bucket[idx]`
+          match b'[idx]? with
+          | none => .error (.panic "index out of bounds")
+          | some (_, r) => .ok ({ buckets := binsert t.buckets h b', len := t.len }, r)
+  | .missing h =>
+    match onEmpty () with
+    | .error e => .error e
+    | .ok v =>
+      match bget t.buckets h with
+      | none => .error (.panic "unwrap on None")
+      | some b =>
+        let b' := b ++ [(k, v)]
+        match b'.getLast? with
+        | none => .error (.panic "unwrap on None")
+        | some (_, r) => .ok ({ buckets := binsert t.buckets h b', len := t.len + 1 }, r)
+  | .vacant h =>
+    match onEmpty () with
+    | .error e => .error e
+    | .ok v =>
+      match bget t.buckets h with
+      | some [] => .error (.panic "unwrap on None")
+      | some (x :: xs) =>
+        match (x :: xs).getLast? with
+        | none => .error (.panic "unwrap on None")
+        | some (_, r) => .ok ({ buckets := t.buckets, len := t.len + 1 }, r)
+      | none => .ok ({ buckets := binsert t.buckets h [(k, v)], len := t.len + 1 }, v)
+
+/-- `put` with the returned reference -/
+def putRet (t : Table K V) (k : K) (onEmpty : Unit → V) (onFound : V → V) : Res (Table K V × V) :=
+  match locate hash eq t k with
+  | .error e => .error e
+  | .ok loc => tryPutLocatedRet t k loc (fun u => .ok (onEmpty u)) (fun v => .ok (onFound v))
+
 end ops
+
+section consumers
+variable {K : Type} (hash : K → Res Int) (eq : K → K → Res Bool)
+
+/-- the `WithCount` arm of `XGenerator::_iter` (generators.rs:322-339): a private counter mapping; every
+element is `put` with `|| 1` / `|v| v + 1` and paired with the value the put returns; an erroring element,
+hash or eq is yielded as an error item and leaves the counter alone -/
+def withCount (counter : Table K Nat) : List (Res K) → List (Res (K × Nat))
+  | [] => []
+  | item :: rest =>
+    match item with
+    | .error e => .error e :: withCount counter rest
+    | .ok i =>
+      match putRet hash eq counter i (fun _ => 1) (fun v => v + 1) with
+      | .error e => .error e :: withCount counter rest
+      | .ok (counter', v) => .ok (i, v) :: withCount counter' rest
+
+/-- `distinct(g, h, e)` (include.rs) = `g.with_count(h,e).filter(i -> i::item1 == 1).map(i -> i::item0)`;
+error items pass through `filter` and `map` -/
+def distinct (items : List (Res K)) : List (Res K) :=
+  (withCount hash eq empty items).filterMap fun r =>
+    match r with
+    | .error e => some (.error e)
+    | .ok (k, c) => if c = 1 then some (.ok k) else none
+
+end consumers
 
 end XrayModel.HM
